@@ -1896,5 +1896,35 @@ theorem c11_shape_treeStorage_Close :
     Shapes.treestorage_treeStorage_Close =
    ["ts.Lock", "close:c", "ts.Unlock", "wg.Wait"] := rfl
 
+theorem c11_shape_Overlay_CreateProtocol_c11 :
+    Shapes.overlay_Overlay_CreateProtocol_c11 =
+   ["protoIO.getByName", "assign:io:=o.protoIO.getByName(name)", "ProtocolNameToID",
+     "o.NewTreeNodeInstanceFromService",
+     "assign:tni:=o.NewTreeNodeInstanceFromService(t,t.Root,ProtocolNameToID(name),sid,io)",
+     "server.protocolInstantiate",
+     "assign:pi,err:=o.server.protocolInstantiate(tni.token.ProtoID,tni)", "if:(err!=nil)",
+     "instancesLock.Lock", "o.nodeDelete", "instancesLock.Unlock",
+     "return:nil,xerrors.Errorf(\"\",err)", "o.RegisterProtocolInstance",
+     "assign:err=o.RegisterProtocolInstance(pi)", "if:(err!=nil)",
+     "return:nil,xerrors.Errorf(\"\",err)", "go{", "defer{", "assign:r:=recover()",
+     "if:(r!=nil)", "}", "pi.Dispatch", "assign:err:=pi.Dispatch()", "if:(err!=nil)", "}",
+     "return:pi,err"] := rfl
+
+theorem c11_shape_Overlay_nodeDelete_c11 :
+    Shapes.overlay_Overlay_nodeDelete_c11 =
+   ["token.ID", "assign:tok:=token.ID()", "assign:tni,ok:=o.instances[tok]", "if:!ok", "return:",
+     "tni.closeDispatch", "assign:err:=tni.closeDispatch()", "if:(err!=nil)",
+     "o.cleanTreeStorage", "assign:o.instancesInfo[tok]=true"] := rfl
+
+theorem c11_shape_Overlay_cleanTreeStorage_c11 :
+    Shapes.overlay_Overlay_cleanTreeStorage_c11 =
+   ["assign:notUsed:=true", "range:_,inst:=o.instances{",
+     "if:inst.token.TreeID.Equal(token.TreeID)", "assign:notUsed=false", "}", "if:notUsed",
+     "treeStorage.Remove"] := rfl
+
+theorem c11_shape_Overlay_nodeDone_c11 :
+    Shapes.overlay_Overlay_nodeDone_c11 =
+   ["instancesLock.Lock", "o.nodeDelete", "instancesLock.Unlock"] := rfl
+
 
 end C11
